@@ -92,6 +92,30 @@ struct Wrap<D> {
     tail: u32,
 }
 
+/// two flattened members (the members of the second are buffered while the number is read) and a
+/// flattened catch-all map
+#[derive(Serialize, serde::Deserialize)]
+struct Extra {
+    name: String,
+    unit: u32,
+}
+#[derive(Serialize, serde::Deserialize)]
+#[serde(bound = "D: Serialize + DeserializeOwned")]
+struct Wrap2<D> {
+    #[serde(flatten)]
+    inner: D,
+    #[serde(flatten)]
+    extra: Extra,
+}
+#[derive(Serialize, serde::Deserialize)]
+#[serde(bound = "D: Serialize + DeserializeOwned")]
+struct Wrap3<D> {
+    #[serde(flatten)]
+    rest: std::collections::BTreeMap<String, Value>,
+    #[serde(flatten)]
+    inner: D,
+}
+
 /// records the struct name and field list a Deserialize implementation announces
 struct FieldRecorder<'a>(&'a mut Option<(&'static str, Vec<&'static str>)>);
 impl<'de, 'a> serde::Deserializer<'de> for FieldRecorder<'a> {
@@ -220,6 +244,28 @@ fn check_type<F: Flt + Serialize + DeserializeOwned, D: Subject<F> + Serialize +
                 Err(e) => fail("flatten-deserialize", format!("from_value of the flattened struct failed: {e}")),
             },
             Err(e) => fail("flatten-serialize", format!("to_value of the flattened struct failed: {e}")),
+        }
+        // (v) next to a second flattened struct, and under a flattened catch-all map (which receives
+        // every member, the number's own included - the number must still be restored)
+        match serde_json::to_value(&Wrap2 { inner: x.clone(), extra: Extra { name: "n".into(), unit: 3 } }).and_then(serde_json::from_value::<Wrap2<D>>) {
+            Ok(back) => {
+                if back.inner.parts(d).bits() != p.bits() || back.extra.unit != 3 {
+                    fail("flatten2-roundtrip", "flattened next to a second flattened struct: the parts are not restored".into());
+                }
+            }
+            Err(e) => fail("flatten2-deserialize", format!("a user struct with two flattened members (the number and a plain struct) fails: {e}")),
+        }
+        {
+            let mut rest = std::collections::BTreeMap::new();
+            rest.insert("note".to_string(), json!("x"));
+            match serde_json::to_value(&Wrap3 { rest, inner: x.clone() }).and_then(serde_json::from_value::<Wrap3<D>>) {
+                Ok(back) => {
+                    if back.inner.parts(d).bits() != p.bits() {
+                        fail("flatten3-roundtrip", "flattened next to a catch-all map: the parts are not restored".into());
+                    }
+                }
+                Err(e) => fail("flatten3-deserialize", format!("a user struct with a flattened catch-all map and the flattened number fails: {e}")),
+            }
         }
         // (ii) through JSON text, for values the format represents exactly: a value qualifies when
         // the bare float survives to_string / from_str bit for bit (serde_json without
